@@ -42,6 +42,8 @@ def gen(rng):
         var += len(members)
         k = rng.choice(["word", "word", "word", "map", "dyn", "fixed", "bytes"])
         info = {"members": members, "kind": k}
+        if k == "fixed":
+            info["length"] = "0x%x" % rng.choice([3, 3, 1, 5, (1 << 64) + 3, (1 << 128) + 5, (1 << 256) - 1])
         if k == "word":
             usage = rng.choice(uf.USAGES)
             info["usage"] = usage
@@ -92,7 +94,7 @@ def gen(rng):
                     elif k == "dyn":
                         e = ["dyn", comps[0]]
                     else:
-                        e = ["fixed", comps[0], "0x3"]
+                        e = ["fixed", comps[0], info["length"]]
             if k in ("word", "bytes") and rng.random() < 0.1:
                 e = "any"
             emitted.append(e)
@@ -257,7 +259,12 @@ def inject(rng, nvars, js, classes):
     elif info["kind"] == "map":
         expr = rng.choice([["word", 8, "bool"], ["word", 160, "address"], ["fixed", 0, "0x3"], ["dyn", 0]])
     else:
-        expr = rng.choice([["word", 8, "bool"], ["fixed", 0, "0x4"], ["map", 0, 0]])
+        ln = int(info["length"], 16)
+        # a different length: next to it, or agreeing with it in the low 64 / 128 / 192 bits
+        other = rng.choice([ln + 1, ln ^ (1 << 64), ln ^ (1 << 128), ln ^ (1 << 192), ln ^ (1 << 255)]) & ((1 << 256) - 1)
+        if other == ln:
+            other = ln ^ 1
+        expr = rng.choice([["word", 8, "bool"], ["fixed", 0, "0x%x" % other], ["fixed", 0, "0x%x" % other], ["map", 0, 0]])
     js2 = list(js) + [[rng.choice(info["members"]), expr]]
     rng.shuffle(js2)
     return js2, {"class": info, "expr": expr}
